@@ -199,6 +199,11 @@ class RewardLaw:
 # --------------------------------------------------------------------- recording
 
 
+class Unattributable(Exception):
+    """The returned point is a copy whose coordinates match several cells (e.g. a parent and its middle
+    child for odd K): the run cannot be judged by identity-free means - inconclusive, never a violation."""
+
+
 class Clock:
     def __init__(self):
         self.round = 0
@@ -495,17 +500,34 @@ class Session:
         return self.algo.get_last_point()
 
     # -- observation helpers
-    def cell_of(self, pt):
+    def _lookup(self, pt):
+        """(cell, recorder) of a returned point: by object identity (PyXAB hands out the cell's own list), else -
+        should an implementation hand out a copy - by coordinates, if exactly one cell has them."""
         ent = self.by_id.get(id(pt))
-        if ent is None:
+        if ent is not None:
+            node = ent[0]
+            if node.get_cpoint() is pt or self.sampled.get(id(pt)) is node:
+                return ent
+        if not isinstance(pt, list):
             return None
-        node = ent[0]
-        if node.get_cpoint() is pt or self.sampled.get(id(pt)) is node:
-            return node
-        return None
+        hits = []
+        for rec in self.recs:
+            for n in rec.nodes:
+                c = n.get_cpoint()
+                if len(c) == len(pt) and all(a == b for a, b in zip(c, pt)):
+                    hits.append((n, rec))
+        if not hits:
+            return None
+        if len(hits) > 1:
+            raise Unattributable()
+        return hits[0]
+
+    def cell_of(self, pt):
+        ent = self._lookup(pt)
+        return ent[0] if ent else None
 
     def rec_of(self, pt):
-        ent = self.by_id.get(id(pt))
+        ent = self._lookup(pt)
         return ent[1] if ent else None
 
     def main_partition(self):
